@@ -180,7 +180,7 @@ def _run_unit(arg):
     tempfile.tempdir = tmp
     # wall-clock budget per unit: a unit that does not come back (path explosion or a solver call that ignores its own
     # time-out on changed code) is UNDECIDED, never a hanging check
-    budget = int(os.environ.get("PYVC_UNIT_BUDGET", "0") or 0) or (3000 if tier == "thorough" else 300)
+    budget = _unit_budget(tier)
     old_handler = None
     try:
         import signal as _signal
@@ -263,10 +263,77 @@ def run_property(prop, tier="quick", seed=0, only_units=None, jobs=None):
     if jobs == 1 or len(units) == 1:
         outs = [_run_unit(a) for a in args]
     else:
-        ctxm = multiprocessing.get_context("fork")
-        with ctxm.Pool(jobs) as pool:
-            outs = pool.map(_run_unit, args, chunksize=1)
+        outs = _run_units(args, jobs, tier)
     return finish(prop, mod, tier, seed, outs, time.time() - t0)
+
+
+def _unit_budget(tier):
+    return int(os.environ.get("PYVC_UNIT_BUDGET", "0") or 0) or (3000 if tier == "thorough" else 300)
+
+
+def _child(conn, arg):
+    try:
+        out = _run_unit(arg)
+    except BaseException:
+        out = {"unit": arg[2], "status": "crash", "error": traceback.format_exc(), "wall_s": 0.0, "results": [], "functions": [], "models_used": [],
+               "paths": 0, "path_validations": 0, "solver_calls": 0, "bounded": [], "samples": [], "notes": [], "preconditions": [], "truncated": 0}
+    try:
+        conn.send(out)
+    finally:
+        conn.close()
+
+
+def _run_units(args, jobs, tier):
+    """one forked process per unit, at most `jobs` at a time.  The unit stops itself at its wall-clock budget (SIGALRM ->
+    undecided); a unit that cannot even do that (stuck inside a solver call that ignores its own time-out) is KILLED a minute
+    later and counts as undecided - a check never hangs."""
+    ctxm = multiprocessing.get_context("fork")
+    hard = _unit_budget(tier) + 60
+    pending = list(enumerate(args))
+    running = {}
+    outs = [None] * len(args)
+
+    def blank(arg, status, err, wall):
+        return {"unit": arg[2], "status": status, "error": err, "wall_s": wall, "results": [], "functions": [], "models_used": [], "paths": 0,
+                "path_validations": 0, "solver_calls": 0, "bounded": [], "samples": [], "notes": [], "preconditions": [], "truncated": 0}
+    while pending or running:
+        while pending and len(running) < jobs:
+            i, a = pending.pop(0)
+            rd, wr = ctxm.Pipe(duplex=False)
+            pr = ctxm.Process(target=_child, args=(wr, a))
+            pr.start()
+            wr.close()
+            running[i] = (pr, rd, a, time.time())
+        done = []
+        for i, (pr, rd, a, t0) in running.items():
+            if rd.poll(0):
+                try:
+                    outs[i] = rd.recv()
+                except EOFError:
+                    outs[i] = blank(a, "crash", "unit process ended without a result (exit code %r)" % (pr.exitcode,), time.time() - t0)
+                done.append(i)
+            elif not pr.is_alive():
+                if rd.poll(0.2):
+                    continue
+                outs[i] = blank(a, "crash", "unit process ended without a result (exit code %r)" % (pr.exitcode,), time.time() - t0)
+                done.append(i)
+            elif time.time() - t0 > hard:
+                pr.terminate()
+                pr.join(5)
+                if pr.is_alive():
+                    pr.kill()
+                outs[i] = blank(a, "undecided", "unit killed after %d s (it did not stop at its time budget)" % int(time.time() - t0), time.time() - t0)
+                done.append(i)
+        for i in done:
+            pr, rd, a, t0 = running.pop(i)
+            pr.join(5)
+            try:
+                rd.close()
+            except Exception:
+                pass
+        if not done:
+            time.sleep(0.05)
+    return outs
 
 
 def load_ledger():
